@@ -3,7 +3,13 @@
 //! reading side are raised here, addressed by byte offset in the medium.
 
 use crate::prng::Digest;
-use codec::{Error, Input, IoReader, Output};
+#[cfg(feature = "codec-std")]
+use codec::IoReader;
+use codec::{Error, Input, Output};
+
+/// parity-scale-codec is built with its `std` feature (else: as in a Wasm runtime — no `IoReader`, and
+/// `codec::Error` is a field-less struct). Without it the `IoReader` delivery plans are not applied.
+pub const CODEC_STD: bool = cfg!(feature = "codec-std");
 
 // ---------------------------------------------------------------- event log
 
@@ -252,7 +258,7 @@ impl<'a> std::io::Read for SimRead<'a> {
                 self.transient_fired = true;
                 let p = self.pos as u64;
                 self.ev(ev::RD_HARD, buf.len() as u64, p);
-                return Err(std::io::Error::new(std::io::ErrorKind::TimedOut, "sim: transient failure"));
+                return Err(std::io::Error::from(if t % 2 == 0 { std::io::ErrorKind::TimedOut } else { std::io::ErrorKind::WouldBlock }));
             }
             if self.pos < t {
                 k = k.min(t - self.pos);
@@ -338,6 +344,11 @@ impl<'a> SimInput<'a> {
             nest_fail: None,
             log: Log::new(record),
         };
+        #[cfg(not(feature = "codec-std"))]
+        {
+            b.mode.io = None;
+        }
+        #[cfg(feature = "codec-std")]
         if let Some(plan) = b.mode.io.clone() {
             b.io = Some(SimRead {
                 data,
@@ -393,6 +404,7 @@ impl<'a> SimInput<'a> {
         }
     }
     fn read_inner(&mut self, into: &mut [u8]) -> Result<(), Error> {
+        #[cfg(feature = "codec-std")]
         if let Some(io) = self.io.as_mut() {
             // real codec::IoReader + real std read_exact over the SimRead stub
             if let Some(t) = self.transient_at {
@@ -427,6 +439,15 @@ impl<'a> SimInput<'a> {
                 self.refused = true;
                 self.log.ev(ev::IN_READ_IOERR, into.len() as u64, self.pos as u64);
                 self.pos = t;
+                // the identity of the error is the input's business; three plausible ones, by offset: what
+                // codec itself makes of an EINTR or of a timeout from an `io::Read`, and a text of its own
+                #[cfg(feature = "codec-std")]
+                return Err(match t % 3 {
+                    0 => Error::from(std::io::Error::from(std::io::ErrorKind::Interrupted)),
+                    1 => Error::from(std::io::Error::from(std::io::ErrorKind::TimedOut)),
+                    _ => "sim: transient i/o failure".into(),
+                });
+                #[cfg(not(feature = "codec-std"))]
                 return Err("sim: transient i/o failure".into());
             }
         }
